@@ -534,7 +534,114 @@ def standin_simulated_expectations(tier, seed):
 standin_simulated_expectations.prop = "C14"
 
 
-STANDINS = [standin_algebra, standin_conjugation, standin_expectation_and_phasor, standin_pauli_sums, standin_combination_powers, standin_simulated_expectations]
+def standin_operand_independence(tier, seed):
+    """accumulating sums in place (+=, -=, *=, /= on PauliSum, LinearCombinationOfGates / -Operations, LinearDict, MutablePauliString), starting from
+    an empty or a copied accumulator: the result has the matrix the arithmetic defines AND every operand keeps the matrix it was built with"""
+    import cirq
+
+    rng = random.Random(seed + 77)
+    q = cirq.LineQubit.range(2)
+    cases, fails = 0, []
+
+    def rand_sum():
+        terms = []
+        for _ in range(rng.randrange(1, 4)):
+            ps = cirq.PauliString({x: rng.choice([cirq.X, cirq.Y, cirq.Z]) for x in rng.sample(q, rng.randrange(1, 3))}, coefficient=rng.choice([1, -0.5, 2j, 0.25 + 0.5j]))
+            terms.append(ps)
+        out = terms[0] + terms[1] if len(terms) > 1 else cirq.PauliSum.from_pauli_strings(terms)
+        for t_ in terms[2:]:
+            out = out + t_
+        return out
+
+    def M(x):
+        return x.matrix(q) if isinstance(x, (cirq.PauliSum,)) else cirq.unitary(x) if not hasattr(x, "matrix") else x.matrix()
+
+    for trial in range(40 if tier == "quick" else 400):
+        a, b = rand_sum(), rand_sum()
+        ma, mb = a.matrix(q), b.matrix(q)
+        scripts = {
+            "t = PauliSum(); t += a; t += b; t *= 2": (lambda: _run_ps(cirq.PauliSum(), [("+", a), ("+", b), ("*", 2)]), 2 * (ma + mb)),
+            "t = PauliSum() + a; t *= 3; t -= b": (lambda: _run_ps(cirq.PauliSum() + a, [("*", 3), ("-", b)]), 3 * ma - mb),
+            "t = a.copy(); t += b; t /= 2": (lambda: _run_ps(a.copy(), [("+", b), ("/", 2)]), (ma + mb) / 2),
+            "t = 0 + a; t -= a; t += b": (lambda: _run_ps(0 + a, [("-", a), ("+", b)]), mb),
+            "t = sum([a, b]); t *= 1j": (lambda: _run_ps(sum([a, b]), [("*", 1j)]), 1j * (ma + mb)),
+            "t = PauliSum(); t += a; u = PauliSum(); u += t; u *= 5": (lambda: _run_ps(_run_ps(cirq.PauliSum(), [("+", _run_ps(cirq.PauliSum(), [("+", a)]))]), [("*", 5)]), 5 * ma),
+        }
+        for label, (fn, want) in scripts.items():
+            cases += 1
+            try:
+                got = fn()
+                gm = got.matrix(q)
+            except Exception as ex:
+                fails.append(dict(args=dict(script=label, a=repr(a), b=repr(b)), failed="operand-independence-raised", clause=f"{ex!r}"))
+                continue
+            if not np.allclose(gm, want, atol=1e-8):
+                fails.append(dict(args=dict(script=label, a=repr(a), b=repr(b)), failed="accumulated-sum", clause=f"{label}: the result does not have the matrix the arithmetic defines"))
+            elif not np.allclose(a.matrix(q), ma, atol=1e-9) or not np.allclose(b.matrix(q), mb, atol=1e-9):
+                fails.append(dict(args=dict(script=label, a_before=repr(ma.tolist())[:300], a_after=repr(a)), failed="operand-changed", clause=f"{label}: an operand's matrix changed although nothing was applied to it"))
+        # linear combinations of gates / operations and plain LinearDicts
+        ga = cirq.LinearCombinationOfGates({cirq.X: rng.choice([1, 0.5j]), cirq.Z: rng.choice([-1, 2])})
+        gb = cirq.LinearCombinationOfGates({cirq.Y: 0.5, cirq.Z: 1j})
+        mga, mgb = ga.matrix(), gb.matrix()
+        oa = cirq.LinearCombinationOfOperations({cirq.X(q[0]): 1, cirq.Z(q[1]): rng.choice([2, -1j])})
+        ob = cirq.LinearCombinationOfOperations({cirq.Y(q[0]): 0.5, cirq.Z(q[1]): 1})
+        moa, mob = oa.matrix(), ob.matrix()
+        la, lb = cirq.LinearDict({"x": 1, "y": rng.choice([2, 1j])}), cirq.LinearDict({"y": -1, "z": 0.5})
+        la0, lb0 = dict(la), dict(lb)
+        for label, mk, x, y, mx, my in (("LinearCombinationOfGates", lambda: cirq.LinearCombinationOfGates({}), ga, gb, mga, mgb), ("LinearCombinationOfOperations", lambda: cirq.LinearCombinationOfOperations({}), oa, ob, moa, mob)):
+            cases += 1
+            try:
+                t_ = mk()
+                t_ += x
+                t_ += y
+                t_ *= 2
+                u_ = x.copy()
+                u_ -= y
+                ok_val = np.allclose(t_.matrix(), 2 * (mx + my), atol=1e-8) and np.allclose(u_.matrix(), mx - my, atol=1e-8)
+                if not ok_val:
+                    fails.append(dict(args=dict(kind=label), failed="accumulated-sum", clause=f"{label}: t = empty; t += x; t += y; t *= 2 does not have the matrix the arithmetic defines"))
+                elif not np.allclose(x.matrix(), mx, atol=1e-9) or not np.allclose(y.matrix(), my, atol=1e-9):
+                    fails.append(dict(args=dict(kind=label, x=repr(x)), failed="operand-changed", clause=f"{label}: an operand changed under in-place accumulation into another object"))
+            except Exception as ex:
+                fails.append(dict(args=dict(kind=label), failed="operand-independence-raised", clause=f"{ex!r}"))
+        cases += 1
+        t_ = cirq.LinearDict({})
+        t_ += la
+        t_ += lb
+        t_ *= 2
+        v_ = cirq.LinearDict({}) + la
+        v_ -= lb
+        want_t = {k: 2 * (la0.get(k, 0) + lb0.get(k, 0)) for k in set(la0) | set(lb0)}
+        if any(abs(t_[k] - want_t[k]) > 1e-12 for k in want_t) or dict(la) != la0 or dict(lb) != lb0:
+            fails.append(dict(args=dict(a=repr(la0), b=repr(lb0), a_after=repr(dict(la)), total=repr(dict(t_))), failed="operand-changed" if (dict(la) != la0 or dict(lb) != lb0) else "accumulated-sum",
+                              clause="LinearDict: t = {}; t += a; t += b; t *= 2 changed an operand or is not 2(a+b)"))
+        if len(fails) >= 4:
+            break
+    seen, uniq = set(), []
+    for f_ in fails:
+        key = (f_["failed"], f_["args"].get("script", f_["args"].get("kind", "")))
+        if key not in seen:
+            seen.add(key)
+            uniq.append(f_)
+    return dict(function="cirq-core/cirq/{value/linear_dict.py,ops/linear_combinations.py}[in-place accumulation]", case="operand-independence", bound="seeded Pauli sums on 2 qubits x 6 accumulation scripts; gate / operation combinations and plain LinearDicts",
+                cases=cases, distinct=cases, failures=len(uniq), exhaustive=False, _fails=uniq[:4])
+standin_operand_independence.prop = "C14"
+
+
+def _run_ps(t_, steps):
+    for op_, x in steps:
+        if op_ == "+":
+            t_ += x
+        elif op_ == "-":
+            t_ -= x
+        elif op_ == "*":
+            t_ *= x
+        else:
+            t_ /= x
+    return t_
+
+
+STANDINS = [standin_algebra, standin_conjugation, standin_expectation_and_phasor, standin_pauli_sums, standin_combination_powers, standin_simulated_expectations, standin_operand_independence]
 
 NOT_COVERED = [
     "PauliString.__mul__/_imul_helper as a whole (loop over the factors), DensePauliString.__mul__/__pow__, _calc_conjugation, PauliSum algebra: bounded only",
